@@ -59,4 +59,20 @@ theorem delta_k_eq (opq : String → ℝ → ℝ) (ρ : String → ℝ) :
     evalR opq ρ Gen.Flow.Transfer_delta_k = ρ "k" ^ 3 * ρ "power" / (2 * π ^ 2) := by
   simp only [Gen.Flow.Transfer_delta_k]; expr_unfold; push_cast; simp only [zpow_ofNat]; norm_num
 
+open Real in
+set_option maxHeartbeats 1000000 in
+/-- C18 (Takahashi coefficients, the default): the non-linear dimensionless power is non-negative wherever the linear one is,
+    for every wavenumber, non-linear scale, effective index, curvature and redshift, provided Ω_m(z) > 0 and the massive-neutrino
+    correction factor of the halo term is non-negative (it is 1 without massive neutrinos) -/
+theorem halofit_takahashi_nonneg (opq : String → ℝ → ℝ) (ρ : String → ℝ) (ht : ρ "flag:takahashi" = 1) (hd : 0 ≤ ρ "delta_k") (hk : 0 < ρ "k") (hr : 0 < ρ "rknl")
+    (hOm : 0 < ρ "cosmo.Om0") (hnu : 0 ≤ ρ "cosmo.Onu0") (hOmz : ∀ x, 0 < opq "cosmo.Om" x)
+    (hfac : 0 ≤ (1 * 10 ^ (0:ℤ) + ρ "cosmo.Onu0" / ρ "cosmo.Om0" * (977 * 10 ^ (-3:ℤ) - 18015 * 10 ^ (-3:ℤ) * (ρ "cosmo.Om0" - 3 * 10 ^ (-1:ℤ))) : ℝ)) :
+    0 ≤ evalR opq ρ Gen.Halofit.halofit_pnl := by
+  obtain ⟨lg, hlg⟩ : ∃ lg : ℝ → ℝ, ∀ x, opq "cosmo.Om" x = exp (lg x) :=
+    ⟨fun x => log (opq "cosmo.Om" x), fun x => (exp_log (hOmz x)).symm⟩
+  simp only [Gen.Halofit.halofit_pnl]; expr_unfold; push_cast
+  simp only [decide_eq_true_eq, hlg, ht, show ((5:ℝ) * 10 ^ (-1:ℤ) < 1) by norm_num, if_true]
+  generalize hNF : (1 * 10 ^ (0:ℤ) + ρ "cosmo.Onu0" / ρ "cosmo.Om0" * (977 * 10 ^ (-3:ℤ) - 18015 * 10 ^ (-3:ℤ) * (ρ "cosmo.Om0" - 3 * 10 ^ (-1:ℤ))) : ℝ) = nf at hfac ⊢
+  split_ifs <;> positivity
+
 end Hmf.C18
